@@ -60,11 +60,12 @@ KNOWN_CLASS_KEYS = {
 
 
 # ================================================================ implementation side
-def observe(s):
-    """Outcome of Parser().parse(s) as a canonical tuple."""
+def observe(s, parser=None):
+    """Outcome of Parser().parse(s) (or of parser.parse(s) on a Parser that has been used before) as a
+    canonical tuple."""
     from autode.smiles.parser import Parser
     from autode.exceptions import InvalidSmilesString
-    p = Parser()
+    p = Parser() if parser is None else parser
     try:
         p.parse(s)
     except InvalidSmilesString:
@@ -369,7 +370,7 @@ def strict_parse(s):
                     rs.append((b, int(two), True))
                     pos += 3
                 else:
-                    fatal("percent-label-nondigit")
+                    fatal("percent-label-truncated" if len(two) < 2 else "percent-label-nondigit")
             else:
                 pos = save
                 return rs
@@ -845,7 +846,7 @@ FIXED_MALFORMED = [
     "[C+10]", "[CH10]", "[se]1cccc1", "[as]1cccc1", "c1cc[se]c1", "[13CH4]", "[C@TH1H]", "C(C)1CC1", "C(CC)1CC1", "Clr",
     "Brl", "Cr", "Bl", "C l", "C²", "C٣CC٣", "[C+²]", "C%١٢CC%12", " C", "C ", "[C@@@H](F)(Cl)Br",
     "C/=C", "C=/C", "C/", "/C", "C/(C)", "C1CC1(", "C(C)(", "C)(", ")(", "C(C)(C)", "C(C)", "[HH]", "[H]", "[H+]",
-    "[CH²]", "\x1cC", "C\x1f", "\x0bC\x0c", "C1CC(1)", "C(1)CC1", "C(=1)CC1", "C(/1)CC1", "C1(C)CC1", "C(C)=1CC1",
+    "C1CC%1", "C=1CCCC%1", "C0CC%0", "C1CC%", "C1CC%1C", "C1%1", "C12CC1%2", "[CH²]", "\x1cC", "C\x1f", "\x0bC\x0c", "C1CC(1)", "C(1)CC1", "C(=1)CC1", "C(/1)CC1", "C1(C)CC1", "C(C)=1CC1",
     "C(C)1(F)CC1", "C(C)1(F)(Cl)CC1", "N(C)1(=O)CC1", "[C: 7]", "[C:-3]", "C%1 CC%1 ", "C%٠١CC1",
     # grammatical strings that exercise every row of the implicit-valence table beyond its first entry
     "N(C)(C)(C)C", "N(C)(C)(C)(C)C", "N(=O)(=O)C", "CS(C)(C)C", "CS(C)(C)(C)C", "S(C)(C)(C)(C)(C)C", "CP(C)(C)C", "P(C)(C)(C)(C)C",
@@ -1010,8 +1011,9 @@ def table_check_terms():
     ]
 
 
-def enum_terms(ctx, alpha, total_len, prefix_len):
-    """Bounded-exhaustive: every string of length total_len over alpha, sharded by prefix."""
+def enum_terms(ctx, alpha, total_len, prefix_len, fails):
+    """Bounded-exhaustive: every string of length total_len over alpha, sharded by prefix.  Every accepted or
+    crashing string also goes through the implementation-side oracles (RDKit rejects => must be Invalid ...)."""
     terms, meta = [], []
     for pre in itertools.product(alpha, repeat=prefix_len):
         pre = "".join(pre)
@@ -1021,6 +1023,8 @@ def enum_terms(ctx, alpha, total_len, prefix_len):
             o = observe(s)
             exp.append(digest(o))
             ctx.hist("enum", o[0])
+            if o[0] != "Invalid":
+                ctx.hist("enum", check_malformed_case(ctx, s, o, fails))
         ctx.cov["streams"].setdefault("enum", {"evaluations": 0, "distinct_nontrivial": 0})
         ctx.cov["streams"]["enum"]["evaluations"] += len(exp)
         ctx.cov["streams"]["enum"]["distinct_nontrivial"] += len(exp)
@@ -1030,6 +1034,62 @@ def enum_terms(ctx, alpha, total_len, prefix_len):
                      "; ".join(f"{d}%N" for d in exp) + "]")
         meta.append((alpha, pre, total_len - prefix_len))
     return terms, meta
+
+
+REUSE_POOL = [
+    # accepted
+    "C", "CC(C)C", "C1CC1", "C%12CC%12", "[NH4+]", "c1ccccc1", "C(=O)O", "F/C=C/F", "[C@H](F)(Cl)Br", "", "C11",
+    # rejected while something is still open / half read
+    "CC(C", "C(C[", "CC(=O", "C(C(C", "C1CC", "C%12CC", "C(C1", "[CH4", "C(", "C=", "C(C)=", "CC)C", "C)", "1CC1", "C?C",
+    "C.C", "[X]", "[C:a]", "C%1", "C1CC%1", "C(C))", "()", "C(Cl", "C/", "(",
+]
+
+
+def reuse_stream(ctx, fails, extra):
+    """Parser.parse must be a function of the string alone: ONE Parser object parses sequences of strings
+    (accepted, rejected in every class - inside a branch, inside a bracket, with an open ring ... - accepted
+    again) and every outcome must equal the outcome of a fresh Parser on that string."""
+    from autode.smiles.parser import Parser
+    fresh = {}
+
+    def ref(s):
+        if s not in fresh:
+            fresh[s] = observe(s)
+        return fresh[s]
+
+    def run_seq(seq):
+        p = Parser()
+        for k, s in enumerate(seq):
+            got = observe(s, parser=p)
+            ctx.count("reuse", tuple(seq[:k + 1]), nontrivial=k > 0)
+            if got != ref(s):
+                hist = list(seq[:k])
+                fails.add("Parser.parse|state-leaks-between-parses",
+                          f"after parsing {hist!r} on the same Parser object, parse({s!r}) gives {got[0]} "
+                          f"{got[1:3] if got[0] != 'Invalid' else ''} but a fresh Parser gives {ref(s)[0]} "
+                          f"{ref(s)[1:3] if ref(s)[0] != 'Invalid' else ''}", s, {"sequence": list(seq[:k + 1]), "got": got})
+                return False
+        return True
+
+    pool = REUSE_POOL
+    for a in pool:                                   # all ordered pairs, then the first string again
+        for b in pool:
+            run_seq([a, b, a])
+    small = ["C(C)C", "CC(C", "C(C[", "C1CC", "CC)C", "C1CC1", "[CH4", "C)"]
+    for seq in itertools.product(small, repeat=3):    # all ordered triples of a smaller pool
+        run_seq(list(seq))
+    # long random histories over the generated / mutated strings of this run
+    for _ in range(6 if ctx.quick else 60):
+        run_seq([ctx.rng.choice(extra) for _ in range(60)] if extra else [])
+    return sorted(fresh)
+
+
+def pinpoint_enum(ctx, alpha, pre, n):
+    """A shard of the exhaustive enumeration disagrees: find the strings."""
+    strings = [pre + "".join(suf) for suf in itertools.product(alpha, repeat=n)]
+    terms = [term_for(s, observe(s)) for s in strings]
+    bad, err = ctx.coq_bad_indices(PRE, terms, per_file=400, name="c01pin", timeout=600)
+    return [strings[i] for i in bad]
 
 
 def run(ctx):
@@ -1108,6 +1168,24 @@ def run(ctx):
             terms.append(term_for(s, o))
             descr.append({"stream": "malformed", "smiles": s, "observed": o[0]})
     ctx.log(f"malformed stream: {len(seen)} strings; oracle failures {len(fails)}")
+    # parser reuse: one Parser object, sequences of strings
+    pool_strings = reuse_stream(ctx, fails, [c["s"] for c in vcases] + [s for s in seen if s.isascii()])
+    for s in pool_strings:
+        if s not in seen and s.isascii():
+            seen.add(s)
+            o = observe(s)
+            terms.append(term_for(s, o))
+            descr.append({"stream": "reuse-pool", "smiles": s, "observed": o[0]})
+    ctx.log(f"reuse stream: {ctx.cov['streams'].get('reuse', {}).get('evaluations', 0)} parses on shared Parser objects")
+    # bounded-exhaustive enumeration (implementation side; the Coq side is compared below)
+    enum_t, enum_d = [], []
+    plans = ([("Cc()1%=[]+", 4), ("C1%(", 6)] if ctx.quick else [("CNc()12%=[]H+-@/", 5), ("C1%()=", 7)])
+    for alpha, total in plans:
+        for L in range(1, total + 1):
+            et, em = enum_terms(ctx, alpha, L, min(2, L - 1) if L > 2 else 0, fails)
+            enum_t += et
+            enum_d += [{"stream": "enum", "alphabet": a, "prefix": p, "suffix_len": k} for a, p, k in em]
+    ctx.log(f"enumeration: {ctx.cov['streams']['enum']['evaluations']} strings; oracle failures {len(fails)}")
     fails.report(ctx)
 
     # 4. correspondence model vs implementation
@@ -1127,12 +1205,8 @@ def run(ctx):
                     v = "None"
                 terms.append(f"check_int_codes [{a}; {b}] {v}")
                 descr.append({"stream": "py-int", "codes": [a, b]})
-        alpha = "CNc()12%=[]H+-@/" if not ctx.quick else "Cc()1%=[]+"
-        total = 5 if not ctx.quick else 4
-        for L in range(1, total + 1):
-            et, em = enum_terms(ctx, alpha, L, min(2, L - 1) if L > 2 else 0)
-            terms += et
-            descr += [{"stream": "enum", "alphabet": a, "prefix": p, "suffix_len": k} for a, p, k in em]
+        terms += enum_t
+        descr += enum_d
         ctx.log(f"correspondence: {len(terms)} Coq terms")
         corr_bad, corr_err = ctx.coq_bad_indices(PRE, terms, per_file=250, name="c01cases", timeout=900)
         ctx.cov["disagreements"] = len(corr_bad)
@@ -1143,6 +1217,12 @@ def run(ctx):
     if corr_bad or corr_err:
         if not ctx.violations:
             first = [descr[i] for i in corr_bad[:6]]
+            for d in first:
+                if d["stream"] == "enum" and "smiles" not in d:
+                    hit = pinpoint_enum(ctx, d["alphabet"], d["prefix"], d["suffix_len"])
+                    if hit:
+                        d["smiles"], d["more"] = hit[0], hit[1:6]
+                    break
             smi = next((d.get("smiles") for d in first if d.get("smiles") is not None), None)
             ctx.violation("model and implementation disagree" + (f" on {smi!r}" if smi is not None else "") +
                           f" (streams: {sorted({d['stream'] for d in first})}); the theorems of C01/Props.v are about the model, "
